@@ -444,8 +444,9 @@ def call_repo(engine, fi, args, kwargs, st, node=None):
             if ty != TAny:
                 st, u = engine.unboxed(st, new_env[p.arg].t, ty)
                 new_env[p.arg] = u
+    own = {x.arg for x in (fi.node.args.vararg, fi.node.args.kwarg) if x is not None}
     for name, v in list(new_env.items()):
-        if v.kind in ("list", "set", "dict") and v.origin is None:
+        if v.kind in ("list", "set", "dict") and v.origin is None and name not in own:
             v2 = SV(v.kind, v.t, v.ty, ("param", name))
             new_env[name] = v2
     st1 = st.copy(env=new_env, frame=frame, depth=st.depth + 1)
